@@ -144,6 +144,16 @@ Example c08_refuted_v0_early :
   end.
 Proof. vm_compute. reflexivity. Qed.
 
+(* capacity 0: the defect shows differently — the worker exits on the clone's marker and every
+   later emit on the surviving handle is refused for ever (nobody waits in recv any more) *)
+Example c08_refuted_v0_cap0 :
+  match run false (init_q (Some 0) false) [EClone; EDropH; EWStep; ETrySend; ETrySend] with
+  | Some (s, rs) => (rs, q_handles s, q_wk s, room s) =
+                    ([RNone; RNone; RNone; RFull; RFull], 1, WExited, false)
+  | None => False
+  end.
+Proof. vm_compute. reflexivity. Qed.
+
 (* ... which the repaired semantics delivers *)
 Example c08_repaired_same_history :
   match run true (init_q None false) [EClone; EDropH; ETrySend] with
